@@ -298,6 +298,9 @@ func init() {
 	RegisterModFnNS("testns", "marshal", "", func(_ *Ctx, _ *any, _ any, _ []any) error { return nil }).
 		WithDescription("Testing namespace stuff: don't use in production.")
 	RegisterModFnNS("testns", "modCB", "", func(ctx *Ctx, _ *any, _ any, args []any) error {
+		if len(args) == 0 {
+			return ErrModNoArgs
+		}
 		ctx.SetStatic("testVar", args[0])
 		return nil
 	}).
